@@ -20,7 +20,16 @@ for pid in props:
     m = importlib.import_module('props.' + pid.lower())
     if m.META.get('disabled'):
         continue
-    M = m.META
+    M = dict(m.META)
+    import glob as _glob
+    parts = sorted(os.path.basename(f)[:-3] for f in _glob.glob(os.path.join(VERIF, 'props', 'parts', pid.lower() + '_*.py')))
+    ready = []
+    for pn in parts:
+        pm = importlib.import_module('props.parts.' + pn)
+        if pm.PART.get('ready'):
+            ready.append(pn.split('_', 1)[1] + ((' [partial: %s]' % pm.PART['partial']) if pm.PART.get('partial') else ''))
+    if ready:
+        M['level_text'] = M['level_text'] + ' Parts on this tree: ' + '; '.join(ready) + '.'
     claimed.add(pid)
     checks.append(dict(
         property_id=pid,
